@@ -27,6 +27,7 @@ CapsOf(p) == CASE p = "p1" -> {<<"f", "a">>}
                [] p = "p7" -> {<<"f", "c:T">>}
                [] p = "p8" -> {<<"f", "c">>}
                [] p = "p9" -> {<<"f", "a">>}
+               [] p = "p10" -> {<<"f", "a">>}
                [] p = "bad" -> {<<"f", "zzz">>}
                [] p = "bad2" -> {<<"g", "#nope">>}
 AllCapPairs == UNION {CapsOf(p) : p \in Probes}
@@ -35,9 +36,11 @@ MInit == [cur |-> None, tok |-> [p \in Probes |-> None],
           cnt |-> [fn \in Fns |-> 0], caps |-> [c \in AllCapPairs |-> 0],
           obs |-> [p \in Probes |-> FALSE]]
 
-Push(m, p, d) == [m EXCEPT !.cnt = [fn \in Fns |-> IF fn \in Touches(p) THEN @[fn] + d ELSE @[fn]],
-                           !.caps = [c \in AllCapPairs |-> IF c \in CapsOf(p) THEN @[c] + d ELSE @[c]]]
-Plus(c, p) == IF c = None THEN <<p>> ELSE Append(c, p)
+\* tooling is pushed / popped once per selector the probe was given, and the overlay holds one handler per selector
+Mult(p) == IF p = "p10" THEN 2 ELSE 1
+Push(m, p, d) == [m EXCEPT !.cnt = [fn \in Fns |-> IF fn \in Touches(p) THEN @[fn] + d * Mult(p) ELSE @[fn]],
+                           !.caps = [c \in AllCapPairs |-> IF c \in CapsOf(p) THEN @[c] + d * Mult(p) ELSE @[c]]]
+Plus(c, p) == (IF c = None THEN <<>> ELSE c) \o [i \in 1..Mult(p) |-> p]
 
 \* Probe._enter for a probe that was never activated
 MActivate(m, p) ==
